@@ -187,6 +187,19 @@ def parseEnvG (j : Json) : G.Env :=
     front := G.solutionFront ((jArr j "front").map fun p =>
       (jChars p "key", (jArr p "versions").map fun v => (jNat v "rank", parseMeta (jObj v "meta")))) ((jStrs j "released").map String.toList) }
 
+/-- one unconstrained request against [solution (minus released projects), back repository]: which side answers, with which version -/
+def opStackGet (j : Json) : Json :=
+  let mk := fun (n : String) (v : Nat) => ({ name := n.toList, version := some v, isMeta := false, reqs := [] } : G.Meta)
+  let univOf := fun (k : String) => (jArr j k).map fun p => (normName (jChars p "name"), (jNats p "versions").map fun v => (v, mk (jStr p "name") v))
+  let env : G.Env := { univ := univOf "back", possible := [], neClause := [], order := [],
+                       front := G.solutionFrontNamed (univOf "front") ((jStrs j "released").map String.toList) }
+  let s0 : G.St := { heap := #[], nodes := [], acc := [] }
+  let q : Req := { name := jChars j "request", extras := [], clauses := [], marker := none }
+  let r := G.getDistLog env s0 q
+  match r.1 with
+  | none => Json.mkObj [("answer", Json.null), ("index_asked", Json.bool r.2)]
+  | some m => Json.mkObj [("answer", Json.num (JsonNumber.fromNat (m.version.getD 0))), ("index_asked", Json.bool r.2)]
+
 def opCompile (j : Json) : Json :=
   let env := parseEnvG j
   let prob : G.Problem :=
@@ -445,6 +458,7 @@ def dispatch (op : String) (j : Json) : Json :=
   | "requires-python" => opRequiresPython j
   | "wheel-name" => opWheelName j
   | "compile" => opCompile j
+  | "stack-get" => opStackGet j
   | "sort-cands" => opSortCands j
   | "hello" => Json.mkObj [("protocol", (1 : Nat))]
   | _ => Json.mkObj [("bad-op", op)]
